@@ -121,6 +121,19 @@ func runMsizeCase(c msizeCase, st *msizeStats) *fail {
 			st.nearLimit++
 		}
 		switch op.Kind {
+		case "version":
+			// renegotiation in mid-session: from now on the newly announced msize is the limit
+			rv, err := s.Version(op.Count, "9P2000.L.Google.7")
+			if err != nil || rv.Type != refcodec.Rversion {
+				return failf("tversion-no-rversion", "second Tversion(msize=%d): %v %v", op.Count, rv, err)
+			}
+			msize = uint32(rv.U("msize"))
+			if msize > op.Count || msize > 4<<20 {
+				return failf("rversion-msize", "Tversion(msize=%d) answered msize %d", op.Count, msize)
+			}
+			if st != nil {
+				st.nearLimit++
+			}
 		case "read":
 			_, rep, f := call(tRead(1, op.Offset, uint64(op.Count)))
 			if f != nil {
@@ -203,6 +216,18 @@ func genMsizeCase(rt *rapid.T) msizeCase {
 	}
 	nops := rapid.IntRange(1, 8).Draw(rt, "nops")
 	for i := 0; i < nops; i++ {
+		if i > 0 && rapid.IntRange(0, 5).Draw(rt, "reneg") == 0 {
+			// a second Tversion with a smaller (or larger) msize; later counts refer to it
+			nm := uint32(rapid.SampledFrom([]int{64, 100, 512, 4096, 8192, 65536, int(eff) / 2, int(eff) * 2}).Draw(rt, "newmsize"))
+			if nm < 64 {
+				nm = 64
+			}
+			c.Ops = append(c.Ops, msizeOp{Kind: "version", Count: nm})
+			eff = nm
+			if eff > 4<<20 {
+				eff = 4 << 20
+			}
+		}
 		op := msizeOp{Kind: rapid.SampledFrom([]string{"read", "readdir"}).Draw(rt, "kind")}
 		switch rapid.IntRange(0, 5).Draw(rt, "ck") {
 		case 0:
